@@ -30,7 +30,7 @@ fn narrow(m: &Moc, w: u8) -> Moc {
 }
 
 /// FITS bytes of a 64-bit-frame MOC stored with width w (range encoding, or NUNIQ for space)
-fn fits_bytes(m: &Moc, w: u8, nuniq: bool) -> Vec<u8> {
+pub fn fits_bytes(m: &Moc, w: u8, nuniq: bool) -> Vec<u8> {
   let mw = narrow(m, w);
   dispatch!(m.q, w, |T, QQ| {
     let mm: RangeMOC<T, QQ> = to_range_moc(&mw);
@@ -115,7 +115,7 @@ fn decode_text_1d(q: Q, s: &str, json: bool) -> Result<(Q, u8, Vec<(u64, u64)>),
     Q::F => go::<Frequency<u64>>(q, s, json),
   }
 }
-fn decode_out(q: Q, fmt: &str, path: &Path) -> Result<(Q, u8, Vec<(u64, u64)>), String> {
+pub fn decode_out(q: Q, fmt: &str, path: &Path) -> Result<(Q, u8, Vec<(u64, u64)>), String> {
   let bytes = std::fs::read(path).map_err(|e| format!("no output file: {}", e))?;
   match fmt {
     "fits" => decode_fits_1d(&bytes),
@@ -124,7 +124,7 @@ fn decode_out(q: Q, fmt: &str, path: &Path) -> Result<(Q, u8, Vec<(u64, u64)>), 
   }
 }
 
-fn st_fits(m: &StMoc) -> Vec<u8> {
+pub fn st_fits(m: &StMoc) -> Vec<u8> {
   let mm = to_moc2(m);
   let mut b = Vec::new();
   rangemoc2d_to_fits_ivoa(&mm, None, None, &mut b).unwrap();
@@ -392,7 +392,35 @@ fn st_cases(e: &mut Env, rng: &mut Rng, n: u64) {
           let y = (x + 1 + rng.below(3)).min(1u64 << (dt + 1));
           Moc { q: Q::T, w: 64, d: dt, r: vec![(x << sh, y << sh)] }
         } else {
-          Moc { q: Q::S, w: 64, d: ds, r: rng.pick(&s_pool(ds)).clone() }
+          let mut sel = Moc { q: Q::S, w: 64, d: ds, r: rng.pick(&s_pool(ds)).clone() };
+          // half of the time: a selector DEEPER than the space depth of the ST-MOC covering only a part of a
+          // coarse cell of one of its coverages (containment must not be decided on a degraded selector)
+          if rng.chance(1, 2) && ds < 29 {
+            if let Some((_, s0)) = a.elems.first() {
+              if let Some((x, y)) = s0.first() {
+                if (y - x) >= 4 {
+                  let mut v: Vec<(u64, u64)> = vec![(*x, x + 3 * ((y - x) / 4))];
+                  if let Some((_, s1)) = a.elems.get(1) {
+                    for (x1, y1) in s1 {
+                      if !v.iter().any(|(p, q)| p < y1 && x1 < q) {
+                        v.push((*x1, *y1));
+                      }
+                    }
+                  }
+                  v.sort_unstable();
+                  let mut w: Vec<(u64, u64)> = Vec::new();
+                  for (p, q) in v {
+                    match w.last_mut() {
+                      Some(l) if l.1 >= p => l.1 = l.1.max(q),
+                      _ => w.push((p, q)),
+                    }
+                  }
+                  sel = Moc { q: Q::S, w: 64, d: ds + 1, r: w };
+                }
+              }
+            }
+          }
+          sel
         };
         let ps = e.p("fold_selector.fits");
         std::fs::write(&ps, fits_bytes(&sel, 64, false)).unwrap();
